@@ -420,7 +420,7 @@ static void srv_cb(struct evdns_server_request *req, void *arg)
 		const char *d = j_str(r, "data", "");
 		if (!isname) dl = unhex(d, data, sizeof data);
 		rr = evdns_server_request_add_reply(req, (int)j_int(r, "sec", 0), j_str(r, "name", ""), (int)j_int(r, "type", 1),
-		    (int)j_int(r, "class", 1), (int)j_int(r, "ttl", 0), isname ? -1 : (int)dl, isname, isname ? d : (char *)data);
+		    (int)j_int(r, "class", 1), (int)j_int(r, "ttl", 0), isname ? -1 : (int)dl, isname, isname ? d : (dl ? (char *)data : NULL));
 		fprintf(out, "%s%d", k ? "," : "", rr);
 	}
 	fprintf(out, "]");
